@@ -166,7 +166,9 @@ func writeTie(s *Shared, dir string, all []*Pkg, obs []*FileRun, starts map[*Fil
 					walkFiles++
 					walkEvents += ev
 					walkPanics += len(wo.Panic)
-					detail = fmt.Sprintf("(%s ++ walk_detail @FILE@ %s)%%list", detail, wt)
+					ct, cev := cwalkTerm(wo)
+					walkEvents += cev
+					detail = fmt.Sprintf("(%s ++ walk_detail @FILE@ %s ++ cwalk_detail @FILE@ %s %s)%%list", detail, wt, ConvertComments(f), ct)
 				}
 			}
 			tc := tieCase{desc: p.Name + "/" + f.Name + " " + p.Origin, nodes: n, file: term, term: detail}
@@ -218,5 +220,5 @@ func writeTie(s *Shared, dir string, all []*Pkg, obs []*FileRun, starts map[*Fil
 	s.TieStats["observed_panics_of_modelled_checkers"] = panics
 	s.TieStats["observed_warnings_of_modelled_checkers"] = warnTotal
 	s.TieStats["modelled_checkers"] = ModelledCheckers
-	s.TieStats["walker_tie"] = map[string]interface{}{"walkers": WalkerNames, "files": walkFiles, "shown_nodes_compared": walkEvents, "recorded_panics": walkPanics, "skip_policies": 2}
+	s.TieStats["walker_tie"] = map[string]interface{}{"walkers": append(append([]string{}, WalkerNames...), CommentWalkerNames...), "files": walkFiles, "shown_nodes_compared": walkEvents, "recorded_panics": walkPanics, "skip_policies": 2}
 }
